@@ -11,6 +11,7 @@ import (
 	"hash/fnv"
 	"math/rand/v2"
 	"os"
+	"reflect"
 	"runtime"
 	"sort"
 	"strconv"
@@ -294,7 +295,10 @@ func execDraw(ops []shadow.Op) (string, string) {
 				}
 				wideAt := func(j int) bool { return wideSince[j] || prev[j].Wide || exp[j].Wide }
 				nb := (p[0] > 0 && touched[i-1] && wideAt(i-1)) || (p[0] > 1 && touched[i-2] && (wideAt(i-2) || wideAt(i-1)))
-				if !touched[i] && !nb && !unlocked[i] && m.C[i].R != 0 {
+				// displayed content differs from what the previous Show left (chain of overlapping
+				// wide runes covered / uncovered further left): the cell has to be drawn
+				dispChanged := len(prev) == len(exp) && !reflect.DeepEqual(prev[i], exp[i])
+				if !touched[i] && !nb && !unlocked[i] && m.C[i].R != 0 && !dispChanged {
 					return "unchanged-cell-drawn", fmt.Sprintf("%s: drawCell(%d,%d) although nothing changed there since the previous Show", what, p[0], p[1])
 				}
 			}
@@ -688,10 +692,24 @@ func main() {
 	if tier == "thorough" {
 		nh = 3000
 	}
-	lifecycle()
-	callbacks()
+	// part p of n: every js.FuncOf of a screen stays referenced, so a long run is split
+	// over several processes (part 0 also runs the lifecycle and callback sweeps)
+	part, nparts := 0, 1
+	if len(os.Args) > 4 {
+		part, _ = strconv.Atoi(os.Args[3])
+		nparts, _ = strconv.Atoi(os.Args[4])
+	}
+	if nparts < 1 {
+		nparts = 1
+	}
+	if part == 0 {
+		lifecycle()
+		callbacks()
+	}
 	for hi := 0; hi < nh; hi++ {
-		drawHistory(seed, hi)
+		if hi%nparts == part {
+			drawHistory(seed, hi)
+		}
 	}
 	b, _ := json.Marshal(rep)
 	fmt.Println("WASMCHK-REPORT " + string(b))
